@@ -29,3 +29,8 @@ r.mutants = RECV_MUTANTS['C07']
 s = SendUnit(keep=skeep('C07.'))
 s.mutants = SEND_MUTANTS['C07']
 UNITS = [r, s, LemmaUnit('C07.no_dup lemma', nodup_lemmas)]
+
+
+def extra_checks(tier, seed, pool):
+    from .recvunit import bounded_histories
+    return bounded_histories('C07', tier)
